@@ -179,7 +179,7 @@ func NewXfer(r *Run, o XferOpt) *Xfer {
 	}, func(res any) {
 		sess, ok := res.(*kcp.UDPSession)
 		if !ok {
-			s.L.Logf("ret  Accept -> %v", res)
+			w.retLog()("ret  Accept -> %v", res)
 			return
 		}
 		s.L.Logf("ret  Accept -> session from %s conv=%d", sess.RemoteAddr(), sess.GetConv())
